@@ -74,6 +74,7 @@ type vLog struct {
 	wsDone    int // "linting workspace done"
 	wsCfg     int // workspace runs started for a "config file changed" / "config file dropped" job
 	cfgFail   int // config reloads that the config worker abandoned (no workspace job follows)
+	wsOpen    bool // the last "linting workspace:" line has no "done" yet: the run is in progress or was skipped
 	lines     []string
 	keep      bool
 	lastWrite time.Time
@@ -101,8 +102,16 @@ func (v *vLog) Write(p []byte) (int, error) {
 		v.wsDrop++
 	case s == "linting workspace done":
 		v.wsDone++
+		v.wsOpen = false
 	case strings.HasPrefix(s, "linting workspace: "):
+		// one worker goroutine: a new run means the previous one is over; without a "done" line it was
+		// skipped (no module in the cache) and counts as finished
+		if v.wsOpen {
+			v.wsDone++
+		}
+
 		v.wsStart++
+		v.wsOpen = true
 
 		if strings.Contains(s, `Reason:"config file `) {
 			v.wsCfg++
@@ -175,8 +184,21 @@ const (
 	vAnchorName   = "zz_anchor.rego"
 	vAnchorText   = "package zz_anchor\n\nanchored := true\n"
 	vSentinelName = "zz_verif_sentinel_not_in_cache.rego"
-	vCallTimeout  = 900 * time.Second
 )
+
+// generous on purpose (the box may be heavily loaded); VERIF_TIMEOUT_S shortens them for experiments
+var (
+	vCallTimeout = vTimeoutEnv(900 * time.Second)
+	vIdleTimeout = vTimeoutEnv(900 * time.Second)
+)
+
+func vTimeoutEnv(def time.Duration) time.Duration {
+	if n, err := strconv.Atoi(os.Getenv("VERIF_TIMEOUT_S")); err == nil && n > 0 {
+		return time.Duration(n) * time.Second
+	}
+
+	return def
+}
 
 var vStableWindow = 2 * time.Second
 
@@ -411,7 +433,7 @@ func (s *vSrv) waitIdle(timeout time.Duration) error {
 		}
 
 		// without any module in the cache the workspace worker skips its job without logging "done"
-		if !balanced && s.noAnchor && len(s.ls.cache.GetAllModules()) == 0 && len(s.ls.lintFileJobs) == 0 &&
+		if !balanced && (s.noAnchor || s.inexact) && len(s.ls.cache.GetAllModules()) == 0 && len(s.ls.lintFileJobs) == 0 &&
 			len(s.ls.lintWorkspaceJobs) == 0 && c.FileStart == c.FileDone+c.FileFail {
 			balanced = true
 		}
@@ -764,7 +786,6 @@ type vCheckpoint struct {
 	Fresh     map[string][]string `json:"fresh"`
 }
 
-const vIdleTimeout = 900 * time.Second
 
 func vRunHistory(job vRun, keepLog bool) (res vRun) {
 	t0 := time.Now()
